@@ -10,7 +10,7 @@ import subprocess
 import sys
 import time
 
-V = '/verif'
+V = os.environ.get('VERIF_ROOT', '/verif')
 COQ = V + '/coq'
 CACHE = V + '/.cache'
 HARNESS = V + '/harness'
@@ -261,3 +261,86 @@ TRUSTED_BASE = [
     'correspondence machinery: gen/*.py generators, harness Model impls (from_val/to_val), canonical printers, error-message classifier, ocaml/driver.ml parser',
     'rustc/cargo, core/alloc/std and the optional dependency crates are exercised, not modelled',
 ]
+
+
+# ------------------------------------------------------------------ verdict
+def conclude(pid, tier, seed, t0, coq, stats, disagreements, failures, search=None, level_note=None,
+             extra_assumptions=None):
+    """Common end of every check.
+    coq: result of coq_property; stats: dict merged into evidence coverage;
+    disagreements: model/implementation differences (dicts with 'what');
+    failures: inputs on which the *property itself* fails on the implementation (dicts with 'key', 'what');
+    search: callable() -> list of failures, invoked when something broke but no failing input is known yet."""
+    known, _fixed = known_findings()
+    known_here = [k for k in known if ('property=%s ' % pid) in k]
+    reported = []
+    for f in failures:
+        hit = [k for k in known_here if ('class=%s ' % f.get('class', '?')) in k + ' ']
+        if hit:
+            f['known'] = True
+        else:
+            reported.append(f)
+    for k in known_here:
+        cls = re.search(r'class=(\S+)', k)
+        still = [f for f in failures if f.get('known') and cls and f.get('class') == cls.group(1)]
+        if still:
+            print('KNOWN-FINDING: property=%s %s' % (pid, k.split(' ', 2)[-1]))
+    broken = []
+    if not coq.get('ok'):
+        broken.append('proof: ' + '; '.join(coq.get('problems', [])[:4]) + ((' at ' + coq['failed_at']) if coq.get('failed_at') else ''))
+    if disagreements:
+        broken.append('correspondence: %d disagreement(s), first: %s' % (len(disagreements), disagreements[0].get('what', '')[:300]))
+    if broken and not reported and search is not None:
+        try:
+            more = search()
+        except Exception as e:  # the search is best effort
+            more = []
+            broken.append('search failed: %r' % (e,))
+        for f in more:
+            hit = [k for k in known_here if ('class=%s ' % f.get('class', '?')) in k + ' ']
+            if not hit:
+                reported.append(f)
+    rc = 0
+    coverage = dict(stats)
+    coverage.update({
+        'obligations': coq.get('obligations', 0),
+        'discharged': coq.get('discharged', 0),
+        'theorems': coq.get('theorems', []),
+        'checker_cmd': 'make Properties/%s.vo (coqc 8.16.1, full .vo) + coqc Properties/%s.v with Print Assumptions; source audit for Admitted/admit/Axiom/Parameter/...' % (pid, pid),
+        'trusted_base': TRUSTED_BASE,
+        'proof_wall_s': coq.get('wall_s'),
+        'disagreements_checked': len(disagreements),
+    })
+    if reported:
+        f = reported[0]
+        path = write_replay(pid, seed, {'property': pid, 'kind': 'failing-input', 'failure': f,
+                                        'all_failures': reported[:20], 'broken': broken})
+        print('VIOLATION property=%s replay=%s' % (pid, path))
+        rc = 1
+    elif broken:
+        path = write_replay(pid, seed, {'property': pid, 'kind': 'no-failing-input-found', 'broken': broken,
+                                        'disagreements': disagreements[:20], 'coq_log': coq.get('log', '')[-3000:]})
+        print('VIOLATION property=%s replay=%s no-failing-input-found' % (pid, path))
+        rc = 1
+    assumptions = list(extra_assumptions or [])
+    if level_note:
+        assumptions.append(level_note)
+    write_evidence(pid, tier, seed, coverage, assumptions, time.time() - t0, len(reported) + (1 if (broken and not reported) else 0))
+    if rc == 0:
+        print('OK %s: %d/%d theorems closed, %s evaluations, 0 disagreements (%.1fs)' % (
+            pid, coq.get('discharged', 0), coq.get('obligations', 0), stats.get('evaluations', '?'), time.time() - t0))
+    return rc
+
+
+def ensure_harnesses(cfgs):
+    """Build several configurations in parallel.  Returns ({cfg: exe}, [build failure descriptions])."""
+    ensure_catalogue()
+    exes, fails = {}, []
+    with cf.ThreadPoolExecutor(max_workers=len(cfgs)) as ex:
+        for cfg, (exe, log) in zip(cfgs, ex.map(ensure_harness, cfgs)):
+            if exe is None:
+                errs = [l for l in log.split('\n') if l.startswith('error')]
+                fails.append({'what': 'harness build failed for %s: %s' % (cfg, ' | '.join(errs[:3]) or log[-400:])})
+            else:
+                exes[cfg] = exe
+    return exes, fails
